@@ -9,6 +9,7 @@ pub mod src;
 #[macro_use]
 pub mod macros;
 pub mod common;
+pub mod shared_stubs;
 #[cfg(kani)]
 pub mod stubs;
 
